@@ -175,6 +175,8 @@ type jhead struct {
 	// Compiled: for a wired store, the limits and retention settings the compiler produced from the text (what run() hands
 	// to the store)
 	Compiled *jcfg `json:"compiled,omitempty"`
+	// InStore: for a wired store, the limits and retention settings the store object holds after run()'s wiring
+	InStore *jcfg `json:"inStore,omitempty"`
 }
 
 func ns(t time.Time) int64 {
@@ -227,8 +229,8 @@ type backend struct {
 	path  string
 	mem   *queue.MemoryStore
 	sql   *queue.SQLiteStore
-	// what the compiler made of the wired configuration text
-	compiled *jcfg
+	// what the compiler made of the wired configuration text, and what the store built from it holds
+	compiled, inStore *jcfg
 }
 
 func (b *backend) store() qstore {
@@ -279,13 +281,19 @@ func (b *backend) openWired() error {
 	if err != nil {
 		return err
 	}
+	held := func(l queue.VerifLimits) *jcfg {
+		return &jcfg{MaxDepth: l.MaxDepth, DropOldest: l.DropPolicy == "drop_oldest", Retention: int64(l.Retention), PruneInterval: int64(l.PruneInterval),
+			DeliveredRet: int64(l.DeliveredRetention), DlqRet: int64(l.DLQRetention), DlqDepth: l.DLQMaxDepth}
+	}
 	switch s := st.(type) {
 	case *queue.MemoryStore:
 		s.VerifSetNow(b.clock.Now)
 		b.mem = s
+		b.inStore = held(s.VerifLimits())
 	case *queue.SQLiteStore:
 		s.VerifSetNow(b.clock.Now)
 		b.sql = s
+		b.inStore = held(s.VerifLimits())
 	default:
 		return fmt.Errorf("wired store has unexpected type %T", st)
 	}
@@ -1173,7 +1181,7 @@ func (q *qrun) runTrace(traceNo int, seed uint64) error {
 			os.Remove(b.path + "-shm")
 		}
 	}()
-	if err := q.emit(jhead{K: "cfg", Trace: traceNo, Seed: seed, Cfg: g.cfg, Init: []jmsg{}, Compiled: b.compiled}); err != nil {
+	if err := q.emit(jhead{K: "cfg", Trace: traceNo, Seed: seed, Cfg: g.cfg, Init: []jmsg{}, Compiled: b.compiled, InStore: b.inStore}); err != nil {
 		return err
 	}
 	nops := q.ops
